@@ -370,8 +370,11 @@ def _decide(mod, desc, opts, res, rlimit, V, ctx, claims, exc):
                 res['status'] = 'error' if res['status'] == 'ok' else res['status']
                 res['notes'].append(f'Fail claim {f.label!r} did not reproduce concretely')
 
-    # -- vacuity guard: side conditions alone must be satisfiable
-    if ctx.assumptions and (eqs or unsats):
+    # -- vacuity guard: side conditions alone must be satisfiable (only needed when something is to be proved)
+    def _nontrivial(c):
+        a, b = lift(c.lhs), lift(c.rhs)
+        return a is None or b is None or not a.eq(b)
+    if ctx.assumptions and (unsats or any(_nontrivial(c) for c in eqs)):
         s = mk_solver(rlimit); s.add(*base)
         r = _check(s, res)
         if r == z3.unsat:
